@@ -2,7 +2,9 @@
 (***************************************************************************)
 (* Property C09 judged on operation-level traces of the REAL lock-free     *)
 (* sliding window, produced by the goroutine gate (harness/cmd/c09):       *)
-(*   inv(p, kind, ts, n)   ret(p, val, now)   step(p, at)   tick   end     *)
+(*   inv(p, kind, ev, ts, n)  ret(p, val, now)  step(p, at)  tick  end     *)
+(* (ev = the statistic recorded into / read: a counter event kind, "conc", *)
+(* "minrt", "maxconc" - the clauses of the property are per statistic).    *)
 (* The trace is a total order (one goroutine runs at a time).  A step that *)
 (* resumes from la.setstart / la.reset is a roll-over of the slot selected *)
 (* by that goroutine's time stamp; it marks every OTHER pending add on the *)
@@ -27,13 +29,13 @@ Judge(ok, expected) ==
 
 TNew ==
     /\ IsEvent("new")
-    /\ g' = [tr |-> Ev.tr, n |-> Ev.n, bl |-> Ev.bl]
+    /\ g' = [tr |-> Ev.tr, n |-> Ev.n, bl |-> Ev.bl, maxrt |-> Ev.maxrt]
     /\ seq' = 0 /\ ops' = {} /\ pend' = [p \in Procs |-> None] /\ failed' = FALSE
 
 TInv ==
     /\ IsEvent("inv")
     /\ seq' = seq + 1
-    /\ pend' = [pend EXCEPT ![Ev.p] = [kind |-> Ev.kind, ts |-> Ev.ts, n |-> Ev.n, inv |-> seq + 1, ret |-> 0,
+    /\ pend' = [pend EXCEPT ![Ev.p] = [kind |-> Ev.kind, ev |-> Ev.ev, ts |-> Ev.ts, n |-> Ev.n, inv |-> seq + 1, ret |-> 0,
                                        retNow |-> 0, val |-> 0, over |-> FALSE]]
     /\ UNCHANGED <<g, ops, failed>>
 
@@ -61,12 +63,13 @@ TStuck == IsEvent("stuck") /\ Judge(FALSE, [terminated |-> FALSE]) /\ UNCHANGED 
 TEnd ==
     /\ IsEvent("end")
     /\ LET all == ops \cup { pend[p] : p \in { q \in Procs : pend[q].kind # "none" } } IN
-       Judge(NoInvention(all, g.n, g.bl) /\ ExactWhenNoOverlap(all, g.n, g.bl),
-             [noinvention |-> NoInvention(all, g.n, g.bl), exact |-> ExactWhenNoOverlap(all, g.n, g.bl),
-              clean |-> Clean(all), ops |-> all])
+       Judge(NoInvention(all, g.n, g.bl, g.maxrt) /\ ExactWhenNoOverlap(all, g.n, g.bl, g.maxrt),
+             [noinvention |-> NoInvention(all, g.n, g.bl, g.maxrt), exact |-> ExactWhenNoOverlap(all, g.n, g.bl, g.maxrt),
+              clean |-> Clean(all), invented |-> Invented(all, g.n, g.bl, g.maxrt), inexact |-> Inexact(all, g.n, g.bl, g.maxrt),
+              ops |-> all])
     /\ UNCHANGED <<g, seq, ops, pend>>
 
-TInit == l = 1 /\ g = [tr |-> 0, n |-> 1, bl |-> 1] /\ seq = 0 /\ ops = {} /\ pend = [p \in Procs |-> None] /\ failed = FALSE
+TInit == l = 1 /\ g = [tr |-> 0, n |-> 1, bl |-> 1, maxrt |-> 1] /\ seq = 0 /\ ops = {} /\ pend = [p \in Procs |-> None] /\ failed = FALSE
 TNext == TNew \/ TInv \/ TRet \/ TStep \/ TTick \/ TStuck \/ TEnd
 TSpec == TInit /\ [][TNext]_tvars
 =============================================================================
